@@ -269,7 +269,7 @@ fn gen_attrs(ch: &mut Ch, thorough: bool) -> Option<Case> {
 
 /// Debug / Default attribute flavours
 fn gen_misc(ch: &mut Ch, _thorough: bool) -> Option<Case> {
-    let cases: [(&[&str], &str); 42] = [
+    let cases: [(&[&str], &str); 45] = [
         (&["Debug"], "pub struct X<T>(#[debug(ignore)] pub T, pub Option<T>);"),
         (&["Debug"], "pub struct X<T> { #[debug(transparent)] pub a: Vec<T>, pub b: u8 }"),
         (&["Debug"], "pub enum X<'a, T> { A(#[debug(ignore)] &'a T), B { #[debug(transparent)] x: T }, C }"),
@@ -315,6 +315,11 @@ fn gen_misc(ch: &mut Ch, _thorough: bool) -> Option<Case> {
         (&["Default"], "#[default(Self::MK)] pub struct X<T>(pub Option<T>); /*extra*/ impl<T> X<T> { pub const MK: Self = X(None); }"),
         (&["Default", "Clone"], "#[default(\"lit\")] pub struct X<T> { pub a: Vec<T> } /*extra*/ impl<T> ::core::convert::From<&str> for X<T> { fn from(_: &str) -> Self { X { a: Vec::new() } } }"),
         (&["Default"], "#[default(Self::MK)] pub enum X<T> { A(T), B } /*extra*/ impl<T> X<T> { pub const MK: Self = X::B; }"),
+        // misuse of a key template (`$` where a pattern / a type is expected): answered by derive_ex itself, or - if the
+        // expander lets it through - rustc must not trip over the generated code
+        (&["PartialEq"], "pub struct X(#[partial_eq(key = { let ($) = 1u8; 0u8 })] pub u8);"),
+        (&["PartialOrd", "PartialEq"], "pub enum X { A(#[partial_ord(key = (|$| 0u8)(1u8))] u8), B }"),
+        (&["Hash"], "pub struct X { #[hash(key = ::core::mem::size_of::<$>())] pub x: u8 }"),
         // lint level attributes on the item cover the generated impls as they cover the impls of the standard derives
         // (the impls repeat the generic parameters and the field types)
         (&["Clone", "Debug", "Default", "Ord", "PartialOrd", "Eq", "PartialEq", "Hash"], "#[allow(non_camel_case_types, non_upper_case_globals)] pub struct X<t, const n: usize>(pub [t; n]);"),
@@ -406,12 +411,16 @@ fn gen_macro(ch: &mut Ch, _thorough: bool) -> Option<Case> {
     // as `expr` fragments
     // "bound-fragments": an explicit bound whose predicates contain an `expr` fragment (array length) and a `ty`
     // fragment (multi-bound trait object behind a reference)
-    let frag = *ch.of(&["ident", "tt", "meta", "expr-default", "bound-fragments"]);
+    // "cast-in-type": the field type holds an expr fragment as the operand of a cast (`[Fty; $n as usize]`)
+    let frag = *ch.of(&["ident", "tt", "meta", "expr-default", "bound-fragments", "cast-in-type"]);
     let entry = *ch.of(&Entry::BOTH);
     if frag == "expr-default" && !(list.contains(&"Default") && shape == 0) {
         return None;
     }
     if frag == "bound-fragments" && (deref || ops) {
+        return None;
+    }
+    if frag == "cast-in-type" && (deref || ops || shape != 0) {
         return None;
     }
     let d = if list.contains(&"Default") { "#[default] " } else { "" };
@@ -430,6 +439,7 @@ fn program(c: &Case) -> String {
         let body = match c.desc.as_str() {
             "meta" => format!("macro_rules! mk {{ ($m:meta) => {{ {ex}#[$m] {} }} }}\nmk!(derive_ex({list}));\n", c.item),
             "bound-fragments" => format!("pub trait L4 {{}}\nimpl L4 for [u8; 4] {{}}\nmacro_rules! mk {{ ($e:expr, $t:ty) => {{ {ex}#[derive_ex({list}, bound([u8; $e * 2]: L4, &'static $t: ::core::marker::Copy, ..))] {} }} }}\nmk!(1 + 1, dyn ::core::fmt::Debug + Send);\n", c.item),
+            "cast-in-type" => format!("macro_rules! mk {{ ($n:expr) => {{ {ex}#[derive_ex({list})] {} }} }}\nmk!(1u8 + 2u8);\n", c.item.replace("pub a: Fty", "pub a: [Fty; $n as usize]")),
             "expr-default" => format!("pub const S9: &str = \"s9\";\nmacro_rules! mk {{ ($v:expr, $w:expr) => {{ {ex}#[derive_ex({list})] {} }} }}\nmk!(\"abc\", S9);\n", c.item.replace("pub a: Fty", "#[default($v)] pub a: Wr").replace("pub b: Fty", "#[default($w)] pub b: Wr")),
             f => format!("macro_rules! mk {{ ($t:{f}) => {{ {ex}#[derive_ex({list})] {} }} }}\nmk!(Fty);\n", c.item.replace("Fty", "$t")),
         };
@@ -490,7 +500,9 @@ pub fn run(ctx: &Ctx, rep: &mut Report) {
         let r = expand::expand(c.entry, &c.list.join(", "), c.item.split("/*extra*/").next().unwrap_or("")).and_then(|ts| expand::parse_output(ts, c.entry == Entry::Attr));
         match r {
             Ok(items) => items.iter().filter_map(|i| if let OutItem::Error(m) = i { Some(m.clone()) } else { None }).next(),
-            Err(e) => Some(format!("expansion failed: {e}")),
+            // output that does not even parse (or a panic) is no message of derive_ex's own: rustc decides, and whatever
+            // it says about the generated code counts
+            Err(_) => None,
         }
     });
     let idx: Vec<usize> = (0..cases.len()).filter(|&i| own[i].is_none()).collect();
